@@ -31,7 +31,7 @@ type c20Entry struct {
 
 type c20Consumer struct {
 	reads []int // sizes of the leading reads
-	end   int   // 0 drain with 1-byte reads, 1 drain with 4096, 2 close, 3 close then read, 4 close twice, 5 close then drain
+	end   int   // 0 drain with 1-byte reads, 1 drain with 4096, 2 close, 3 close then read, 4 close twice, 5 close then drain, 6 DiscardBytesToEOF, 7 DiscardBytesToFirstError until EOF
 	loss  bool
 }
 
@@ -43,10 +43,13 @@ type c20Result struct {
 	eofAt     int // index of read that returned EOF (-1)
 	panicked  *vlib.PanicInfo
 	closedErr error
+	// ends 6 and 7: bytes the library's discard helper reports, which together with the bytes read before must be all
+	discarded  int
+	usedHelper bool
 }
 
 func (cs c20Consumer) String() string {
-	return fmt.Sprintf("reads=%v end=%s loss=%v", cs.reads, []string{"drain(1)", "drain(4096)", "Close", "Close+Read", "Close+Close", "Close+drain"}[cs.end], cs.loss)
+	return fmt.Sprintf("reads=%v end=%s loss=%v", cs.reads, []string{"drain(1)", "drain(4096)", "Close", "Close+Read", "Close+Close", "Close+drain", "DiscardBytesToEOF", "DiscardBytesToFirstError*"}[cs.end], cs.loss)
 }
 
 // runScenario executes one scenario; it returns "" or a violation key and description.
@@ -138,6 +141,19 @@ func c20Run(batches [][]c20Entry, cs c20Consumer, lk *c20Leak) (key, desc string
 			case 5:
 				rs.Close()
 				drain(3)
+			case 6:
+				// the package's own helper for consumers that lose interest: it must read on to the end of the stream
+				res.discarded = tcpreader.DiscardBytesToEOF(&rs)
+				res.usedHelper = true
+			case 7:
+				for i := 0; i < 10000; i++ {
+					n, err := tcpreader.DiscardBytesToFirstError(&rs)
+					res.discarded += n
+					if err == io.EOF {
+						break
+					}
+				}
+				res.usedHelper = true
 			}
 		})
 		conDone <- res
@@ -200,6 +216,9 @@ func c20Run(batches [][]c20Entry, cs c20Consumer, lk *c20Leak) (key, desc string
 	// bytes returned (up to Close/EOF) must be the prefix of the concatenation
 	if !bytes.HasPrefix(want, res.got) {
 		return "bytes-differ", fmt.Sprintf("read %x, delivered %x", res.got, want)
+	}
+	if res.usedHelper && len(res.got)+res.discarded != len(want) {
+		return "discard-helper-stops-early", fmt.Sprintf("%d bytes read + %d discarded by the helper, the assembler delivered %d", len(res.got), res.discarded, len(want))
 	}
 	if cs.end <= 1 {
 		if !bytes.Equal(want, res.got) {
@@ -266,7 +285,7 @@ func c20Consumers(maxReads int, sizes []int) []c20Consumer {
 	var out []c20Consumer
 	var rec func(prefix []int)
 	rec = func(prefix []int) {
-		for end := 0; end <= 5; end++ {
+		for end := 0; end <= 7; end++ {
 			for _, loss := range []bool{false, true} {
 				out = append(out, c20Consumer{reads: append([]int{}, prefix...), end: end, loss: loss})
 			}
